@@ -172,7 +172,12 @@ def check_frame(out, rng, fr, sess, pending):
   if rep3['scenario'] == scen and cond and cost_regression_ok:
     for c, f in (('estimate', b / a), ('lower', b / a), ('upper', b / a), ('precision', b / a), ('probability', 1.0),
                  ('relative_lift', 1.0), ('relative_lift_lower', 1.0), ('relative_lift_upper', 1.0), ('incremental_cost', a), ('incremental_response', b)):
-      if not en.close(rep3[c], f * rep[c], 1e-7, 1e-12):
+      # a figure that is zero up to rounding (no lift at all) is noise at the scale of the data, not of itself
+      mag_r = float(np.abs(en.series(fr, use_cool)[3]).sum()) or 1.0
+      mag_c = max(abs(rep['incremental_cost']), 1e-300)
+      floor = {'incremental_response': b * mag_r, 'incremental_cost': a * mag_c, 'probability': 1.0,
+               'relative_lift': 1.0, 'relative_lift_lower': 1.0, 'relative_lift_upper': 1.0}.get(c, (b / a) * mag_r / mag_c)
+      if not en.close(rep3[c], f * rep[c], 1e-7, floor):
         out.oracle_violation(dict(facts, symptom='not-equivariant', column=c), dict(case, a=a, b=b),
                              f'{scen}: cost x{a}, response x{b}: column {c} goes {rep[c]} -> {rep3[c]}, expected x{f} = {f * rep[c]}')
         return
